@@ -77,8 +77,12 @@ def run_case(case):
     spy = seams.BatchSpy(model)
     updates = {"n": 0}
 
+    used = []
+
     def cb(opt, params, grads):
         updates["n"] += 1
+        if decorated:
+            used.append(list(getattr(spy.orig, "indices", [])))
     rs = seams.ScriptedRandomState(7, perm_script=[list(p) for p in script])
     where = dict(family=family, n=n, batch_size=bs, affinity=aff_mode, decorated=decorated, mode=mode)
     v = []
@@ -141,6 +145,12 @@ def run_case(case):
     if family != "CategoricalModel" and mode == "fit" and rs.perm_calls != len(spy.log):
         v.append(violation("epoch_permutation_not_drawn_from_the_estimator_random_state",
                            {"permutations_drawn_from_random_state": rs.perm_calls, "epochs": len(spy.log)}, **where))
+    if decorated and mode == "fit":
+        # the indices recorded by the decoration must be those of the batch being trained on at the moment they are used
+        flat = [b["idx"] for ep in spy.log for b in ep]
+        if len(flat) == len(used) and any(a_ != b_ for a_, b_ in zip(flat, used)):
+            k_ = next(i for i, (a_, b_) in enumerate(zip(flat, used)) if a_ != b_)
+            v.append(violation("decorated_indices_stale_when_the_gradient_is_computed", {"step": k_, "batch": flat[k_], "recorded_at_use": used[k_]}, **where))
     if mode in ("fit", "refit_up", "refit_down"):
         if len(spy.log) != max_iter:
             v.append(violation("wrong_number_of_epochs", {"epochs": len(spy.log), "max_iter": max_iter}, **where))
